@@ -419,7 +419,15 @@ pub fn run_cli_env(case: &CliCase, entropy: u128, sandbox: &Path, expected: Opti
                 }
             }));
         }
-        InState::Missing => {}
+        InState::Missing => {
+            if case.entropy % 2 == 1 && !case.input_name.contains('/') {
+                // the file is missing, but look-alikes sit next to it (a program that "helpfully" tries other spellings
+                // converts the wrong file)
+                for sfx in [".xml", ".bak", "~", ".XML"] {
+                    let _ = std::fs::write(sandbox.join(format!("{}{sfx}", case.input_name)), "<decoy><a/></decoy>");
+                }
+            }
+        }
         InState::Directory => {
             std::fs::create_dir_all(&inp).map_err(|e| e.to_string())?;
             if case.entropy % 2 == 1 {
